@@ -4,7 +4,7 @@ CONSTANTS
   Kind <- MCKind
   Class <- MCClass
   Fam <- MCFam
-  Cases <- MCCases
+  Cases = {}
   Sizes = {0, 6, 24}
   Starts = {0, 4}
   Ends = {0, 17}
@@ -14,6 +14,7 @@ CONSTANTS
   NMs = {1, 2, 3, 4, 5, 6}
   Bufs = {0, 1, 3, 16}
   NFs = {1, 2, 4}
+  LawBatches = {1, 2, 3, 5, 8, 13, 16}
 INIT MCInit
 NEXT Next
 INVARIANTS LawsHold ExportCover
